@@ -30,7 +30,7 @@ def main() -> int:
                 result = mod.run_case(it["case"], wd)
             except HarnessError as e:
                 result = dict(harness_error=str(e), violations=[], situations={}, counters={})
-            except Exception:  # noqa: BLE001
+            except (Exception, SystemExit):  # noqa: BLE001  (a SystemExit escaping run_case is a harness bug, not a verdict)
                 result = dict(harness_error=traceback.format_exc(), violations=[], situations={}, counters={})
             finally:
                 shutil.rmtree(wd, ignore_errors=True)
